@@ -769,7 +769,13 @@ func (t *c15Writer) WriteShipMessageWithPayload(m []byte) {
 	t.mu.Unlock()
 }
 
-func (t *c15Writer) take() []rig.Out { t.mu.Lock(); defer t.mu.Unlock(); r := t.outs; t.outs = nil; return r }
+func (t *c15Writer) take() []rig.Out {
+	t.mu.Lock()
+	defer t.mu.Unlock()
+	r := t.outs
+	t.outs = nil
+	return r
+}
 
 func c15Integrated(c *rig.Ctx) {
 	r := c.Rand
